@@ -167,7 +167,8 @@ class Run(object):
                 self.A.next = (e["ans"], e["mode"])
                 tgt = {"normal": "www.example.com:80", "exit": "www.example.com.abcd.exit:80", "resolve": "www.example.com:0"}[e["kind"]]
                 status = "NEWRESOLVE" if e["kind"] == "resolve" else "NEW"
-                self.sim.event("650 STREAM %d %s 0 %s SOURCE_ADDR=127.0.0.1:%d PURPOSE=USER\r\n" % (s, status, tgt, e["p"]))
+                src = "127.0.0.1:%d" % e["p"] if e["p"] < 5000 else "10.1.2.3:%d" % (e["p"] - 1000)
+                self.sim.event("650 STREAM %d %s 0 %s SOURCE_ADDR=%s PURPOSE=USER\r\n" % (s, status, tgt, src))
             elif a == "AddSub":
                 self.P.add_attacher(self.subs[e["x"]], e["prio"])
             elif a == "RemSub":
@@ -179,7 +180,8 @@ class Run(object):
                     sub.next = e["sa"][n]
                 tgt = {"normal": "www.example.com:80", "exit": "www.example.com.abcd.exit:80", "resolve": "www.example.com:0"}[e["kind"]]
                 status = "NEWRESOLVE" if e["kind"] == "resolve" else "NEW"
-                self.sim.event("650 STREAM %d %s 0 %s SOURCE_ADDR=127.0.0.1:%d PURPOSE=USER\r\n" % (s, status, tgt, e["p"]))
+                src = "127.0.0.1:%d" % e["p"] if e["p"] < 5000 else "10.1.2.3:%d" % (e["p"] - 1000)
+                self.sim.event("650 STREAM %d %s 0 %s SOURCE_ADDR=%s PURPOSE=USER\r\n" % (s, status, tgt, src))
             elif a in ("StreamFailed", "LateClosed"):
                 s = e["s"]
                 self.cur_stream = s
